@@ -275,6 +275,10 @@ pub fn diagnose_store(
                 // "the cache holds min(N, number of distinct keys stored) entries"
                 owners.push("C04");
             }
+            if p.max_memory.is_some() {
+                // only a value that alone exceeds M is refused
+                owners.push("C05");
+            }
             owners.extend_from_slice(ctx);
             return Clause::new(
                 "not_stored",
